@@ -406,8 +406,14 @@ func (r *run) quietProbe(quiet time.Duration) (join func()) {
 		first := &knxnet.ConnStateReq{Channel: 1, Control: knxnet.HostInfo{Protocol: knxnet.UDP4}}
 		us.Send(first)
 		ts.Send(first)
+		// a complete but undecodable frame is dropped; whatever the receiver armed or allocated for it must
+		// not outlive it (a read deadline set for the frame and never cleared would end the receiver during
+		// the silence that follows)
+		junk := []byte{6, 0x10, 2, 6, 0, 7, 1}
+		srv.WriteToUDP(junk, us.LocalAddr().(*net.UDPAddr))
+		tsrv.Write(junk)
 		time.Sleep(quiet)
-		op := fmt.Sprintf("one Send, then %v without traffic, then a frame from the peer", quiet)
+		op := fmt.Sprintf("one Send and one undecodable frame from the peer, then %v without traffic, then a frame from the peer", quiet)
 		srv.WriteToUDP(sentinel, us.LocalAddr().(*net.UDPAddr))
 		tsrv.Write(sentinel)
 		for _, c := range []struct {
